@@ -40,7 +40,7 @@ RULE = ("each run builds a chain of 1-4 components (real RateLimiter, AccessCont
 PROBES = ["chain_rejected", "chain_raised", "slow_component", "titan_with_chain",
           "content_arrived_while_chain_undecided", "peer_left_while_chain_undecided",
           "client_cert_presented", "ipv6_peer", "real_handlers", "start_server_assembly",
-          "timer_fired_while_chain_undecided"]
+          "timer_fired_while_chain_undecided", "flood_1000_pending_requests"]
 COMPONENTS = {
     "real": ["nauyaca.server.protocol", "nauyaca.server.middleware (chain + 3 components)",
              "nauyaca.server.server.start_server chain assembly", "nauyaca.server.tls_protocol",
@@ -250,8 +250,16 @@ def run_one(ch):
 
     hd = ch.pick("hdelay", [None, 0.0, 0.2])
 
+    flood = False
     if assembly == 0:
         comps, descr = gen_components(ch, sim, log)
+        flood = mode == "plain" and ch.chance("flood", 0.002)
+        if flood:
+            # resource exhaustion: > 1000 requests are already waiting in a slow component
+            # when the judged requests arrive
+            comps.insert(0, Rec(sim, Scripted("allow", 5.0, None), "0:slow(5.0)+allow[flood]", log))
+            descr.insert(0, "slow(5.0)+allow[flood]")
+            res.stats["flood_1000_pending_requests"] += 1
         chain = MiddlewareChain(comps)
     else:
         descr = ["start_server"]
@@ -299,6 +307,12 @@ def run_one(ch):
             await asyncio.sleep(0.001)
             if srv_task.done():
                 srv_task.result()
+        if flood:
+            for j in range(1050):
+                bep = raw_connect(net, HOST, 1965, src=("10.77.%d.%d" % (j // 250, j % 250), 20000 + j),
+                                  tag=f"bg{j}")
+                RawPeer(net, bep, [("send", f"gemini://{HOST}/bg/x".encode() + b"\r\n")], name=f"bg{j}")
+            await asyncio.sleep(0.5)
         for i, c in enumerate(conns):
             if c["start"]:
                 await asyncio.sleep(c["start"])
